@@ -3,7 +3,7 @@ import itertools
 import re
 from .facts import AnalysisBroken
 from . import paths, hygiene, c18
-from .sym import sym, show
+from .sym import sym, show, atoms
 from .xeval import ev, CannotEval
 
 EXPLANATION = (
@@ -520,6 +520,61 @@ def run(ctx):
     c18.dispatch(ctx)
     sigma_guards(ctx)
     square_guards(ctx)
+    composite_operators_check_the_user_operator(ctx)
     hygiene.raw_allocation(ctx)
     ctx.require('range-guard-equals-documented-range', 6)
     ctx.require('square-matrix-guard', 10)
+
+
+def composite_operators_check_the_user_operator(ctx, rule='square-matrix-guard'):
+    """The generalized solvers hand the base class an internal composite operator.  When its rows() / cols() report the size of
+    ONE of the user's operators only (the Cholesky and regular-inverse composites report the size of B), the base's shape test
+    `rows() == cols()` never sees the other one: a rectangular A built with a library wrapper that legitimately accepts any shape
+    (DenseGenMatProd, SparseGenMatProd) is accepted, compute() reports an eigenvalue for a 4 x 3 A and reads out of bounds for a
+    3 x 4 one.  Such a composite must compare, in its constructor and before it sizes anything by them, rows() and cols() of the
+    operator it hides with each other and with the size it reports, and throw invalid_argument."""
+    n = 0
+    for cls in ('Spectra::SymGEigsCholeskyOp', 'Spectra::SymGEigsRegInvOp'):
+        ms = [f for f in ctx.F.concrete() if f.cls == cls and f.cfg is not None]
+        ctors = [f for f in ms if f.d.get('ctor') and len(f.params) == 2]
+        sizes = [f for f in ms if f.name in ('rows', 'cols')]
+        if not ctors or not sizes:
+            raise AnalysisBroken('%s: constructor / rows() / cols() not analysed' % cls)
+        reported = set()
+        for f in sizes:
+            for r in f.walk():
+                if r['k'] == 'ReturnStmt':
+                    reported |= set(a[1] for a in atoms(sym(f, r['value'], inline=False)) if a[0] == 'F')
+        seen = set()
+        for fn in ctors:
+            if fn.mangled in seen:
+                continue
+            seen.add(fn.mangled)
+            pn = [fn.locals[v]['name'] for v in fn.params]
+            hidden = [p_ for p_, fld in zip(pn, ('m_op', 'm_Bop')) if fld not in reported]
+            n += 1
+            if not hidden:
+                ctx.ok(rule, cls.replace('Spectra::', '') + '::ctor', fn.qname, 'rows() / cols() involve both operators')
+                continue
+            gs = guards_of_throws(fn)
+            ok = False
+            why = 'no guarded throw in the constructor'
+            for g, t in gs:
+                c = show(sym(fn, g['cond'], inline=False))
+                h = hidden[0]
+                if 'invalid_argument' in t.get('thrown', '') and ('rows(%s)' % h) in c and ('cols(%s)' % h) in c and any(('rows(%s)' % o) in c or ('cols(%s)' % o) in c for o in pn if o != h):
+                    ok, why = True, 'the constructor throws invalid_argument unless `%s`' % c[:90]
+            # nothing is sized by the hidden operator before the test
+            inits = [i for i in fn.inits if i.get('expr', -1) >= 0 and h_in(fn, i, hidden)]
+            if inits:
+                ok, why = False, 'member `%s` is sized by the unvalidated operator in the initialiser list' % inits[0]['member']
+            ctx.check(ok, rule, cls.replace('Spectra::', '') + '::ctor', fn.qname,
+                      why if ok else 'rows() and cols() of this composite report the size of %s only, and %s: a rectangular A (a library wrapper for general matrices accepts any shape) passes the '
+                      'solver\'s shape test; compute() then reports an eigenvalue for a 4 x 3 matrix and reads out of bounds for a 3 x 4 one' % (sorted(reported), why))
+    if n < 2:
+        raise AnalysisBroken('only %d composite-operator constructors analysed' % n)
+
+
+def h_in(fn, init, hidden):
+    t = show(sym(fn, fn.nodes[init['expr']], inline=False)) if isinstance(init.get('expr'), int) and init['expr'] in fn.nodes else ''
+    return any(('rows(%s)' % h) in t or ('cols(%s)' % h) in t for h in hidden)
